@@ -3,6 +3,7 @@ import VrlProofs.Lemmas.TypeAssign
 import VrlProofs.Lemmas.TypeEffect
 import VrlProofs.Lemmas.TypeConst
 import VrlProofs.Lemmas.TypeBinop
+import VrlProofs.Lemmas.KindRemove
 
 /-! Soundness of the type inference for one evaluation step (C01 a/d, C02 b, C12 c), as an
     invariant `Sound` proved by structural recursion over the mutual `Expr`/`Exprs`/`KExprs`.
@@ -1374,5 +1375,380 @@ theorem sound_arr (es : Exprs) (ihl : IHL es) : IH (.arr es) := by
       | ret x => exact absurd h (by simp [ArrSound])
       | ok x => exact absurd h (by simp [ArrSound])
       | _ => trivial
+
+/-! ### object literals -/
+
+theorem ObjAcc.step_of_not_never (a : ObjAcc) (k : Key) (t : TypeDef) (h : t.kind.isNever = false) :
+    a.step k t = { a with known := a.known.insert k t.kind, returns := a.returns.union t.returns,
+                          fallible := a.fallible || t.fallible } := by
+  simp [ObjAcc.step, h]
+
+theorem ObjAcc.step_fallible (a : ObjAcc) (k : Key) (t : TypeDef) :
+    (a.step k t).fallible = (a.fallible || t.fallible) := by
+  unfold ObjAcc.step; simp only []; split <;> rfl
+
+theorem ObjAcc.step_stop_fallible (a : ObjAcc) (k : Key) (t : TypeDef) (ha : a.stop = none) (td : TypeDef)
+    (h : (a.step k t).stop = some td) : td.fallible = (a.fallible || t.fallible) := by
+  unfold ObjAcc.step at h
+  simp only [] at h
+  split at h
+  · simp only [Option.some.injEq] at h; subst h; rfl
+  · simp only [ha] at h; cases h
+
+theorem typeObj_fallible_mono : (kvs : KExprs) → (T : TState) → (acc : ObjAcc) → acc.stop = none →
+    acc.fallible = true → (typeObj kvs T acc).1.finish.fallible = true
+  | .nil, T, acc, hs, hf => by rw [typeObj]; simp [ObjAcc.finish, hs, hf]
+  | .cons k e kes, T, acc, hs, hf => by
+    rw [typeObj]
+    have hf' : (acc.step k (typeInfo e T).1.upgradeUndefined).fallible = true := by
+      rw [ObjAcc.step_fallible, hf]; rfl
+    cases hst : (acc.step k (typeInfo e T).1.upgradeUndefined).stop with
+    | some td =>
+      simp only [Option.isSome_some, if_true]
+      have := ObjAcc.step_stop_fallible acc k _ hs td hst
+      simp only [ObjAcc.finish, hst]
+      rw [this, hf]; rfl
+    | none =>
+      simp only [Option.isSome_none, Bool.false_eq_true, if_false]
+      exact typeObj_fallible_mono kes _ _ hst hf'
+
+def ObjSound (kes : KExprs) (acc acc' : ObjAcc) (T' : TState) (cs : List Chk) : Except Res VMap × St → Prop
+  | (.ok mp, s') =>
+    acc'.stop = none ∧ KeysEq mp kes ∧ mp.Sorted = true ∧
+    (∀ k x, mp.get k = some x → ∃ K, acc'.known.get k = some K ∧ mem x K = true) ∧
+    (∀ k, mp.get k = none → acc'.known.get k = acc.known.get k) ∧ Conforms s' T'
+  | (.error .err, _) => acc'.finish.fallible = true ∨ Chk.nan ∈ cs
+  | (.error (.ret _), _) => False
+  | (.error (.ok _), _) => False
+  | _ => True
+
+def IHK (kes : KExprs) : Prop :=
+  ∀ (T : TState) (s : St) (acc : ObjAcc), acc.stop = none → keysSorted kes = true →
+    AllNan (checksObj kes T acc) → Conforms s T →
+    ObjSound kes acc (typeObj kes T acc).1 (typeObj kes T acc).2 (checksObj kes T acc) (evalKVs kes s)
+
+theorem sound_kvs_nil : IHK .nil := by
+  intro T s acc hs _ _ hc
+  rw [typeObj, evalKVs]
+  exact ⟨hs, trivial, rfl, by intro k x h; simp [VMap.get] at h, fun _ _ => rfl, hc⟩
+
+theorem sound_kvs_cons (k : Key) (e : Expr) (kes : KExprs) (ihe : IH e) (ihk : IHK kes) :
+    IHK (.cons k e kes) := by
+  intro T s acc hs hsorted hk hc
+  rw [checksObj] at hk ⊢
+  simp only [allNan_append] at hk
+  rw [allNan_chk (by decide)] at hk
+  obtain ⟨⟨hke, hret⟩, hkl⟩ := hk
+  obtain ⟨hgt, hsorted'⟩ := keysSorted_tail_gt k e kes hsorted
+  have h1 := ihe T s hke hc
+  rw [typeObj, evalKVs]
+  cases hq : eval e s with
+  | mk r s1 =>
+    rw [hq] at h1
+    cases r with
+    | ok v =>
+      simp only [Sound] at h1
+      have hm : mem v (typeInfo e T).1.upgradeUndefined.kind = true := mem_upgrade_of_memR h1.1
+      have hnn := not_never_of_mem v _ hm
+      have hstep := ObjAcc.step_of_not_never acc k _ hnn
+      have hs' : (acc.step k (typeInfo e T).1.upgradeUndefined).stop = none := by rw [hstep]; exact hs
+      have h2 := ihk (typeInfo e T).2 s1 _ hs' hsorted' hkl h1.2.2
+      simp only [hs', Option.isSome_none, Bool.false_eq_true, if_false]
+      cases hq2 : evalKVs kes s1 with
+      | mk r2 s2 =>
+        rw [hq2] at h2
+        cases r2 with
+        | ok mp =>
+          simp only [ObjSound] at h2 ⊢
+          obtain ⟨h2a, hkeys, hsrt, hget, hnone, h2c⟩ := h2
+          have hknone : mp.get k = none := by
+            cases hg : mp.get k with
+            | none => rfl
+            | some x =>
+              have := KeysEq.get_isSome mp kes hkeys k (by simp [hg])
+              have := hgt k this
+              rw [Key.lt_irrefl] at this; cases this
+          have hknown : (acc.step k (typeInfo e T).1.upgradeUndefined).known =
+              acc.known.insert k (typeInfo e T).1.upgradeUndefined.kind := by rw [hstep]
+          refine ⟨h2a, ⟨rfl, hkeys⟩, ?_, ?_, ?_, h2c⟩
+          · simp only [VMap.Sorted, h1.2.1, hsrt, KeysEq.allGt mp kes hkeys k hgt, Bool.and_self]
+          · intro q x hx
+            simp only [VMap.get] at hx
+            by_cases hkq : k = q
+            · subst hkq
+              simp only [if_true, Option.some.injEq] at hx
+              subst hx
+              refine ⟨_, ?_, hm⟩
+              rw [hnone k hknone, hknown, KList.get_insert_same]
+            · simp only [hkq, if_false] at hx
+              exact hget q x hx
+          · intro q hq'
+            simp only [VMap.get] at hq'
+            by_cases hkq : k = q
+            · simp [hkq] at hq'
+            · simp only [hkq, if_false] at hq'
+              rw [hnone q hq', hknown, KList.get_insert_other _ _ _ _ hkq]
+        | error r =>
+          cases r with
+          | err =>
+            simp only [ObjSound] at h2 ⊢
+            rcases h2 with h | h
+            · exact Or.inl h
+            · exact Or.inr (List.mem_append_right _ h)
+          | ret x => exact h2
+          | ok x => exact h2
+          | _ => trivial
+    | err =>
+      simp only [Sound] at h1
+      simp only [ObjSound]
+      rcases h1 with h | h
+      · left
+        have hf' : (acc.step k (typeInfo e T).1.upgradeUndefined).fallible = true := by
+          rw [ObjAcc.step_fallible]
+          simp [TypeDef.upgradeUndefined, h]
+        cases hst : (acc.step k (typeInfo e T).1.upgradeUndefined).stop with
+        | some td =>
+          simp only [Option.isSome_some, if_true]
+          have := ObjAcc.step_stop_fallible acc k _ hs td hst
+          simp only [ObjAcc.finish, hst]
+          rw [this]
+          simp [TypeDef.upgradeUndefined, h]
+        | none =>
+          simp only [Option.isSome_none, Bool.false_eq_true, if_false]
+          exact typeObj_fallible_mono kes _ _ hst hf'
+      · exact Or.inr (List.mem_append_left _ (List.mem_append_left _ h))
+    | ret x =>
+      simp only [Sound] at h1
+      rw [memR_never x _ hret] at h1; cases h1
+    | _ => trivial
+
+theorem sound_obj (kvs : KExprs) (ihk : IHK kvs) : IH (.obj kvs) := by
+  intro T s hk hc
+  rw [checks] at hk ⊢
+  simp only [allNan_append] at hk
+  rw [allNan_chk (by decide)] at hk
+  have h := ihk T s {} rfl hk.1 hk.2 hc
+  rw [typeInfo, eval]
+  cases hq : evalKVs kvs s with
+  | mk r s1 =>
+    rw [hq] at h
+    cases r with
+    | ok mp =>
+      simp only [ObjSound] at h
+      obtain ⟨hst, _, hsrt, hget, hnone, hc'⟩ := h
+      simp only [Sound, ObjAcc.finish, hst]
+      refine ⟨memR_of_mem ?_, by simpa [Value.Sorted] using hsrt, hc'⟩
+      rw [mem_obj_iff _ _ (VMap.sortedKeys_of_sorted mp hsrt)]
+      refine ⟨Col.ofKnown (typeObj kvs T {}).1.known, rfl, ?_, ?_⟩
+      · intro q x hx
+        obtain ⟨K, hK, hm⟩ := hget q x hx
+        simp only [slotKind, Col.ofKnown, Col.known, hK]
+        exact hm
+      · intro q K' hK hq'
+        have := hnone q hq'
+        simp only [Col.ofKnown, Col.known] at hK
+        rw [this] at hK
+        simp [KList.get] at hK
+    | error r =>
+      cases r with
+      | err =>
+        simp only [ObjSound] at h
+        simp only [Sound]
+        rcases h with h | h
+        · exact Or.inl h
+        · exact Or.inr (List.mem_append_right _ h)
+      | ret x => exact absurd h (by simp [ObjSound])
+      | ok x => exact absurd h (by simp [ObjSound])
+      | _ => trivial
+
+/-! ### `del` of the whole event / metadata (the only removal C19 proves sound) -/
+
+/-- the kind `Kind::remove` leaves at the root -/
+def emptiedKind (K : Kind) : Kind :=
+  let k0 := Kind.never
+  let k1 := if K.containsObject then k0.orObject Col.empty else k0
+  let k2 := if K.containsArray then k1.orArray Col.empty else k1
+  if K.containsPrimitive then k2.orNull else k2
+
+theorem deleteExt_root (T : TState) (m : Bool) (b : Bool) :
+    deleteExt T m [] b = T.setExt m (emptiedKind (T.extKind m)) := by
+  unfold deleteExt
+  rw [remove_root_eq]
+  rfl
+
+theorem targetRemove_root (s : St) (hf : s.faults = []) (m b : Bool) :
+    (s.targetRemove m [] b).1 = some (if m then s.metadata else s.event) ∧
+    (s.targetRemove m [] b).2.vars = s.vars ∧ (s.targetRemove m [] b).2.faults = s.faults ∧
+    (if m then (s.targetRemove m [] b).2.metadata = Value.emptied s.metadata ∧
+               (s.targetRemove m [] b).2.event = s.event
+     else (s.targetRemove m [] b).2.event = Value.emptied s.event ∧
+          (s.targetRemove m [] b).2.metadata = s.metadata) := by
+  unfold St.targetRemove St.tick
+  simp only [hf, List.contains_nil, Bool.false_eq_true, if_false]
+  cases m <;> simp [Value.remove, Value.removeOpt, hf]
+
+/-- the state after `del(.)` / `del(%)` against the type state `deleteExt` -/
+theorem conforms_delete_root {s : St} {T : TState} (hc : Conforms s T) (m b : Bool) :
+    Conforms (s.targetRemove m [] b).2 (T.setExt m (emptiedKind (T.extKind m))) := by
+  obtain ⟨_, hv, hfa, hrest⟩ := targetRemove_root s hc.faults m b
+  cases m with
+  | false =>
+    simp only [Bool.false_eq_true, if_false] at hrest
+    refine ⟨by rw [hfa]; exact hc.faults, ?_, ?_, by rw [hrest.1]; exact C18.emptied_sorted _,
+      by rw [hrest.2]; exact hc.metadata, by rw [hrest.2]; exact hc.metadataSorted⟩
+    · intro n d hd
+      obtain ⟨w, h1, h2⟩ := hc.vars n d hd
+      exact ⟨w, by simpa [St.getVar, hv] using h1, h2⟩
+    · rw [hrest.1]; exact mem_emptied _ _ hc.event
+  | true =>
+    simp only [if_true] at hrest
+    refine ⟨by rw [hfa]; exact hc.faults, ?_, by rw [hrest.2]; exact hc.event,
+      by rw [hrest.2]; exact hc.eventSorted, ?_, by rw [hrest.1]; exact C18.emptied_sorted _⟩
+    · intro n d hd
+      obtain ⟨w, h1, h2⟩ := hc.vars n d hd
+      exact ⟨w, by simpa [St.getVar, hv] using h1, h2⟩
+    · rw [hrest.1]; exact mem_emptied _ _ hc.metadata
+
+theorem conforms_delExternal_root {s' : St} {T : TState} (m : Bool) (compact : Option Bool)
+    (hk : AllNan (match compact with
+      | some _ => []
+      | none =>
+        chk .kindUnion (unionOk (deleteExt T m [] false).target (deleteExt T m [] true).target) ++
+        chk .kindUnion (unionOk (deleteExt T m [] false).metadata (deleteExt T m [] true).metadata)))
+    (hc : Conforms s' (T.setExt m (emptiedKind (T.extKind m)))) :
+    Conforms s' (delExternal T (some (m, [])) compact) := by
+  cases compact with
+  | some b => simp only [delExternal, deleteExt_root]; exact hc
+  | none =>
+    simp only [delExternal, deleteExt_root] at hk ⊢
+    simp only [allNan_append] at hk
+    rw [allNan_chk (by decide), allNan_chk (by decide)] at hk
+    refine ⟨hc.faults, hc.vars, ?_, hc.eventSorted, ?_, hc.metadataSorted⟩
+    · exact mem_union_left' hk.1 hc.event
+    · exact mem_union_left' hk.2 hc.metadata
+
+theorem sound_delExt (m : Bool) (p : Path) (hasC : Bool) (c : Expr) (ihc : IH c) : IH (.delExt m p hasC c) := by
+  intro T s hk hc
+  rw [checks] at hk ⊢
+  simp only [allNan_append, delExtChecks] at hk
+  obtain ⟨hkc, ⟨hp, hat⟩, hun⟩ := hk
+  rw [allNan_chk (by decide)] at hp hat
+  have hp' : p = [] := by cases p <;> simp_all
+  subst hp'
+  rw [typeInfo, eval]
+  cases hasC with
+  | false =>
+    simp only [Bool.false_eq_true, if_false] at hun ⊢
+    obtain ⟨hr, _, _, _⟩ := targetRemove_root s hc.faults m false
+    have hconf := conforms_delExternal_root (T := T) m none hun (conforms_delete_root hc m false)
+    cases hq : s.targetRemove m [] false with
+    | mk r s1 =>
+      rw [hq] at hr hconf
+      simp only at hr
+      subst hr
+      simp only [Sound, Option.getD_some, TypeDef.maybeFallible, TypeDef.ofKind, Kind.atPath]
+      refine ⟨?_, ?_, hconf⟩
+      · cases m
+        · exact memR_of_mem hc.event
+        · exact memR_of_mem hc.metadata
+      · cases m
+        · exact hc.eventSorted
+        · exact hc.metadataSorted
+  | true =>
+    simp only [if_true, allNan_append] at hkc hun ⊢
+    rw [allNan_chk (by decide)] at hkc
+    simp only [Bool.and_eq_true, Bool.not_eq_true'] at hkc
+    have h1 := ihc T s hkc.1 hc
+    cases hq : eval c s with
+    | mk r1 s1 =>
+      rw [hq] at h1
+      cases r1 with
+      | ok v =>
+        simp only [Sound] at h1
+        cases v with
+        | bool b =>
+          simp only
+          obtain ⟨hr, _, _, _⟩ := targetRemove_root s1 h1.2.2.faults m b
+          have hconf := conforms_delExternal_root (T := (typeInfo c T).2) m
+            ((constOf c (typeInfo c T).2).bind asBoolean) hun (conforms_delete_root h1.2.2 m b)
+          cases hq2 : s1.targetRemove m [] b with
+          | mk r s2 =>
+            rw [hq2] at hr hconf
+            simp only at hr
+            subst hr
+            simp only [Sound, Option.getD_some, TypeDef.maybeFallible, TypeDef.ofKind, Kind.atPath]
+            refine ⟨?_, ?_, hconf⟩
+            · cases m
+              · exact memR_of_mem h1.2.2.event
+              · exact memR_of_mem h1.2.2.metadata
+            · cases m
+              · exact h1.2.2.eventSorted
+              · exact h1.2.2.metadataSorted
+        | _ =>
+          -- a `compact` that is not a boolean: typed fallible
+          simp only [Sound, TypeDef.maybeFallible]
+          left
+          simp only [delFallible, TypeDef.ofKind, Bool.false_or, Bool.true_and, Bool.not_eq_true']
+          cases hsup : Kind.boolean.isSuperset (typeInfo c T).1.kind with
+          | false => rfl
+          | true =>
+            have := memR_isBoolean (K := Kind.boolean) (by decide)
+              (superset_prim_sound _ Kind.boolean _ boolean_noExactAny hsup h1.1)
+            obtain ⟨b, hb⟩ := this
+            cases hb
+      | err =>
+        simp only [Sound] at h1 ⊢
+        rcases h1 with h | h
+        · rw [hkc.2.1] at h; cases h
+        · exact Or.inr (List.mem_append_left _ (List.mem_append_left _ h))
+      | ret x =>
+        simp only [Sound] at h1
+        rw [memR_never x _ hkc.2.2] at h1; cases h1
+      | _ => trivial
+
+/-! ### forms outside the theorem (a failed check) -/
+
+theorem sound_excluded (e : Expr) (c : Chk) (hc : c ≠ .nan) (h : ∀ T, c ∈ checks e T) : IH e := by
+  intro T s hk
+  exact absurd (hk c (h T)) hc
+
+/-! ### the induction -/
+
+mutual
+  theorem eval_sound : (e : Expr) → IH e
+    | .lit v => sound_lit v
+    | .noop => sound_noop
+    | .grp e => sound_grp e (eval_sound e)
+    | .blk es => sound_blk es (evalSeq_sound es)
+    | .arr es => sound_arr es (evalList_sound es)
+    | .obj kvs => sound_obj kvs (evalKVs_sound kvs)
+    | .ifte p t h e => sound_ifte p t h e (evalSeq_sound p) (evalSeq_sound t) (evalSeq_sound e)
+    | .op o l r => sound_op o l r (eval_sound l) (eval_sound r)
+    | .asg t e => sound_asg t e (eval_sound e)
+    | .iasg a b e d => sound_iasg a b e d (eval_sound e)
+    | .qext m p => sound_qext m p
+    | .qvar n p => sound_qvar n p
+    | .qexpr e p => sound_qexpr e p (eval_sound e)
+    | .var n => sound_var n
+    | .not e => sound_not e (eval_sound e)
+    | .abort h m => sound_abort h m (eval_sound m)
+    | .ret e => sound_ret e (eval_sound e)
+    | .delExt m p h c => sound_delExt m p h c (eval_sound c)
+    | .delVar n p h c => sound_excluded _ .delTyping (by decide) (fun T => by rw [checks]; simp)
+    | .delExpr e p h c => sound_excluded _ .outOfModel (by decide) (fun T => by rw [checks]; simp)
+    | .existsExt m p => sound_existsExt m p
+    | .existsVar n p => sound_existsVar n p
+    | .existsExpr e p => sound_existsExpr e p (eval_sound e)
+    | .call n a b args hc cv cb => sound_excluded _ .outOfModel (by decide) (fun T => by rw [checks]; simp)
+  theorem evalSeq_sound : (es : Exprs) → IHS es
+    | .nil => sound_seq_nil
+    | .cons e es => sound_seq_cons e es (eval_sound e) (evalSeq_sound es)
+  theorem evalList_sound : (es : Exprs) → IHL es
+    | .nil => sound_list_nil
+    | .cons e es => sound_list_cons e es (eval_sound e) (evalList_sound es)
+  theorem evalKVs_sound : (kvs : KExprs) → IHK kvs
+    | .nil => sound_kvs_nil
+    | .cons k e kes => sound_kvs_cons k e kes (eval_sound e) (evalKVs_sound kes)
+end
 
 end Lang
